@@ -24,6 +24,13 @@ static void println(char *fmt, ...) {
   fprintf(output_file, "\n");
 }
 
+// A symbol name as it is written in an operand. The assembler reads a
+// leading '$' as the start of an immediate, so such a name (identifiers
+// may contain '$') goes in parentheses.
+static char *sym(char *name) {
+  return name[0] == '$' ? format("(%s)", name) : name;
+}
+
 static int count(void) {
   static int i = 1;
   return i++;
@@ -97,7 +104,7 @@ static void gen_addr(Node *node) {
     if (opt_fpic) {
       // Thread-local variable
       if (node->var->is_tls) {
-        println("  data16 lea %s@tlsgd(%%rip), %%rdi", node->var->name);
+        println("  data16 lea %s@tlsgd(%%rip), %%rdi", sym(node->var->name));
         println("  .value 0x6666");
         println("  rex64");
         println("  call __tls_get_addr@PLT");
@@ -105,14 +112,14 @@ static void gen_addr(Node *node) {
       }
 
       // Function or global variable
-      println("  mov %s@GOTPCREL(%%rip), %%rax", node->var->name);
+      println("  mov %s@GOTPCREL(%%rip), %%rax", sym(node->var->name));
       return;
     }
 
     // Thread-local variable
     if (node->var->is_tls) {
       println("  mov %%fs:0, %%rax");
-      println("  add $%s@tpoff, %%rax", node->var->name);
+      println("  add $%s@tpoff, %%rax", sym(node->var->name));
       return;
     }
 
@@ -142,14 +149,14 @@ static void gen_addr(Node *node) {
     // Function
     if (node->ty->kind == TY_FUNC) {
       if (node->var->is_definition)
-        println("  lea %s(%%rip), %%rax", node->var->name);
+        println("  lea %s(%%rip), %%rax", sym(node->var->name));
       else
-        println("  mov %s@GOTPCREL(%%rip), %%rax", node->var->name);
+        println("  mov %s@GOTPCREL(%%rip), %%rax", sym(node->var->name));
       return;
     }
 
     // Global variable
-    println("  lea %s(%%rip), %%rax", node->var->name);
+    println("  lea %s(%%rip), %%rax", sym(node->var->name));
     return;
   case ND_DEREF:
     gen_expr(node->lhs);
